@@ -171,6 +171,18 @@ CATALOGUE = {
     "boxed-optional-or-as-map-key": ["hay: [int...] = [4, 5]", "mk2 = map[int, int] {(hay.index_of(5)) or 9: 1, 1: 2}", "print typeof mk2.len()", "print mk2.len()"],
     "boxed-optional-or-in-list": ["hay: [int...] = [4, 5]", "lo2: [int...] = [(hay.index_of(5)) or 9]", "print typeof lo2[0]", "print lo2[0]"],
     "boxed-optional-unwrap-into": ["uq: int? = nil", "if uq ?= \"5\".parse_int() {", "\tprint typeof (get uq)", "\tprint get uq", "}"],
+    "boxed-optional-opassign-sub": ["bo = \"12\".parse_int()", "mm = 100", "mm -= bo", "print typeof mm", "print mm"],
+    "boxed-optional-opassign-add-elem": ["bo = \"12\".parse_int()", "le: [int...] = [100]", "le[0] += bo", "print typeof le[0]", "print le[0]"],
+    "boxed-optional-opassign-mul-field": ["bo = \"12\".parse_int()", "oc = C(3)", "oc.v *= bo", "print typeof oc.v", "print oc.v"],
+    "boxed-optional-opassign-direct": ["mm = 100", "mm += \"12\".parse_int()", "print typeof mm", "print mm"],
+    "boxed-optional-method": ["bo = \"5\".parse_int()", "print typeof bo.pow(2)", "print bo.pow(2)"],
+    "boxed-optional-method-to-str": ["bo = \"5\".parse_int()", "print typeof bo.to_str()", "print bo.to_str()"],
+    "boxed-optional-method-direct": ["print typeof \"5\".parse_int().abs()", "print \"5\".parse_int().abs()"],
+    "boxed-optional-method-index-of": ["hay: [int...] = [4, 5]", "print typeof hay.index_of(5).to_float()", "print hay.index_of(5).to_float()"],
+    "boxed-optional-bool-and": ["bb = \"true\".parse_bool()", "yes = fn() -> bool {", "\treturn true", "}", "print typeof (bb && yes())", "print bb && yes()"],
+    "boxed-optional-bool-or": ["bb = \"false\".parse_bool()", "yes = fn() -> bool {", "\treturn true", "}", "print typeof (bb || yes())", "print bb || yes()"],
+    "boxed-optional-bool-right": ["bb = \"true\".parse_bool()", "yes = fn() -> bool {", "\treturn true", "}", "print typeof (yes() && bb)", "print yes() && bb"],
+    "boxed-optional-bool-xor": ["bb = \"true\".parse_bool()", "print typeof (bb ^ true)", "print bb ^ true"],
     "boxed-optional-get": ["bo = \"5\".parse_int()", "print typeof (get bo)", "print get bo"],
     "fixed-list-index-types": ["const fx = [1, \"a\", 2.5]", "print typeof fx[0]", "print fx[0]", "print typeof fx[1]", "print fx[1]"],
     "fixed-list-last": ["const fx = [1, \"a\", 2.5]", "print typeof fx[2]", "print fx[2]"],
